@@ -34,6 +34,16 @@ fn gen_val(rng: &mut Rng, t: &J) -> Option<J> {
     }
 }
 
+/// a pair of types of the same shape and two values of the first
+pub fn gen_pair(rng: &mut Rng) -> (J, J, J, J) {
+    let depth = 1 + rng.below(3) as u32;
+    let a = gen_ty(rng, depth);
+    let b = perturb(rng, &a);
+    let (a, b) = if rng.chance(1, 2) { (a, b) } else { (b, a) };
+    let v = gen_val(rng, &a).unwrap_or(J::Null); let w = gen_val(rng, &a).unwrap_or(J::Null);
+    (a, b, v, w)
+}
+
 pub fn gen(rng: &mut Rng, _k: usize, _tier: &str) -> J {
     let depth = 1 + rng.below(3) as u32;
     let a = gen_ty(rng, depth);
@@ -45,7 +55,7 @@ pub fn gen(rng: &mut Rng, _k: usize, _tier: &str) -> J {
 
 fn ints(j: &J) -> data_type::Integer { j.as_array().unwrap().iter().fold(data_type::Integer::empty(), |a, p| a.union_interval(p[0].as_i64().unwrap(), p[1].as_i64().unwrap())) }
 
-fn ty_of(j: &J) -> DataType {
+pub fn ty_of(j: &J) -> DataType {
     match j[0].as_str().unwrap() {
         "int" => DataType::Integer(ints(&j[1])),
         "opt" => DataType::optional(ty_of(&j[1])),
@@ -54,7 +64,7 @@ fn ty_of(j: &J) -> DataType {
     }
 }
 
-fn val_of(j: &J) -> Value {
+pub fn val_of(j: &J) -> Value {
     match j[0].as_str().unwrap() {
         "i" => Value::integer(j[1].as_i64().unwrap()),
         "none" => Value::none(),
@@ -65,7 +75,7 @@ fn val_of(j: &J) -> Value {
 }
 
 /// back to the encoding of the fragment; anything outside it is rendered as text
-fn to_j(t: &DataType) -> J {
+pub fn to_j(t: &DataType) -> J {
     match t {
         DataType::Integer(i) => json!(["int", i.iter().map(|[a, b]| json!([a, b])).collect::<Vec<_>>()]),
         DataType::Optional(o) => json!(["opt", to_j(o.data_type())]),
